@@ -1105,7 +1105,7 @@ def common_execute(case):
 # part 3c: the converter round trip (convert -> results on the uniform copies -> applyStateToOriginal),
 #          whole core or the subset named by the nonUniformAssemFlags setting
 
-_SUBSETS = [[], [], ["primary control"], ["secondary control"], ["control"], ["outer fuel"], ["primary control", "outer fuel"], ["inner fuel", "control"]]
+_SUBSETS = [[], [], [], [], ["primary control"], ["secondary control"], ["control"], ["outer fuel"], ["primary control", "outer fuel"], ["inner fuel", "control"]]
 _CONV_PARAMS = ["power", "mgFlux", "pdens", "flux", "fluxPeak"]
 _THIRD_CELLS = [(0, 0), (1, 0), (1, 1), (2, 0), (2, -1)]
 
